@@ -194,6 +194,12 @@ def run(ctx):
     for topo, kw in sc['live']:
         eng.model_check(topo, 'FairFault', invariants=(), properties=('C06_Heals',), view=False,
                         name=f'{topo.name}/FairFault/{"+".join(kw["fault_kinds"])}', timeout=900 if ctx.quick else 3000, **kw)
+    # non-vacuity of the liveness formula: a sender that never expires the clients of dead incarnations does not heal
+    topo, kw = sc['live'][0]
+    r = eng.model_check(topo, 'FairFault', invariants=(), properties=('C06_Heals',), view=False, expect_ok=False, defects=['no_expire'],
+                        name=f'{topo.name}/FairFault/kill/no_expire', timeout=900, **kw)
+    if not r.timed_out and not r.violated:
+        raise common.MachineryError('the design mutation no_expire satisfies C06_Heals: the liveness formula is vacuous')
     for topo, spec, bounds, kw in sc['safe']:
         eng.model_check(topo, spec, invariants=('C02', 'NoCrash'), bounds=bounds, timeout=900 if ctx.quick else 3000, **kw)
     for topo, spec, num, depth, kw in sc['conf']:
